@@ -200,12 +200,20 @@ Definition namef (o : obj) : option bytes := match o with OName n => Some n | _ 
 (* what Stream::filters reads of a Filter value *)
 Definition fview (x : option obj) : option (list bytes) :=
   match x with Some (OName n) => Some [n] | Some (OArr l) => omap namef l | _ => None end.
-(* what the override reads of a DecodeParms value *)
-Definition dpview (x : option obj) : option (option bytes) :=
+(* what the override reads of one decode-parameters value *)
+Definition dp1 (x : option obj) : option (option bytes) :=
   match x with
   | Some (ODict dp) => Some (match dict_get dp K_Name with Some (OName n) => Some n | _ => None end)
   | _ => None
   end.
+(* ... and of a DecodeParms value: the parameters themselves, or one entry per filter *)
+Definition dpview (x : option obj) : option (option bytes) + list (option (option bytes)) :=
+  match x with
+  | Some (OArr ps) => inr (map (fun p => dp1 (Some p)) ps)
+  | other => inl (dp1 other)
+  end.
+Definition dp_at (v : option (option bytes) + list (option (option bytes))) (k : nat) : option (option bytes) :=
+  match v with inl a => a | inr l => match nth_error l k with Some a => a | None => None end end.
 
 Definition name_eq (x x' : obj) : Prop := namef x = namef x'.
 
@@ -253,22 +261,46 @@ Proof.
     rewrite <- (enc_name_eq _ _ _ _ _ _ _ H1). rewrite (IH _ _ _ H2). reflexivity.
 Qed.
 
+Lemma enc_dp1 P st id x ivs x' ivs' :
+  encrypt_object P st id x ivs = Ok (x', ivs') -> dp1 (Some x') = dp1 (Some x).
+Proof.
+  rewrite encrypt_object_eq. destruct (skip_object st x).
+  - intro H; inversion H; subst. reflexivity.
+  - destruct x; cbn [enc_body]; intro H; try (inversion H; subst; reflexivity).
+    + apply rbind_ok in H; destruct H as [a [_ H]]; inversion H; subst; reflexivity.
+    + apply rbind_ok in H; destruct H as [[l' iv1] [H1 H]]; inversion H; subst. reflexivity.
+    + apply rbind_ok in H; destruct H as [[d' iv1] [H1 H]]; inversion H; subst. cbn [fst dp1]. f_equal.
+      pose proof (enc_dict_get _ _ _ _ _ _ _ H1 K_Name) as G.
+      destruct (dict_get d K_Name) as [y|], (dict_get d' K_Name) as [y'|]; try contradiction; [|reflexivity].
+      destruct G as [iv [iv' G]]. apply enc_name_eq in G. unfold name_eq in G.
+      destruct y, y'; cbn [namef] in G; try discriminate; try reflexivity. inversion G; reflexivity.
+    + apply rbind_ok in H; destruct H as [a [_ H]].
+      apply rbind_ok in H; destruct H as [b [_ H]]. inversion H; subst; reflexivity.
+Qed.
+
+Lemma enc_list_dp1 P st id l ivs l' ivs' :
+  enc_list P st id l ivs = Ok (l', ivs') -> map (fun p => dp1 (Some p)) l' = map (fun p => dp1 (Some p)) l.
+Proof.
+  revert ivs l' ivs'. induction l as [|x l IH]; intros ivs l' ivs' H.
+  - inversion H; subst. reflexivity.
+  - cbn [enc_list] in H. apply rbind_ok in H. destruct H as [[x' ivs1] [H1 H]].
+    apply rbind_ok in H. destruct H as [[l1 ivs2] [H2 H]]. inversion H; subst. cbn [fst snd map].
+    rewrite (enc_dp1 _ _ _ _ _ _ _ H1). rewrite (IH _ _ _ H2). reflexivity.
+Qed.
+
 Lemma enc_views P st id x ivs x' ivs' :
   encrypt_object P st id x ivs = Ok (x', ivs') ->
   fview (Some x') = fview (Some x) /\ dpview (Some x') = dpview (Some x).
 Proof.
+  intro H0. pose proof (enc_dp1 _ _ _ _ _ _ _ H0) as D1. revert H0.
   rewrite encrypt_object_eq. destruct (skip_object st x).
   - intro H; inversion H; subst. split; reflexivity.
   - destruct x; cbn [enc_body]; intro H; try (inversion H; subst; split; reflexivity).
     + apply rbind_ok in H; destruct H as [a [_ H]]; inversion H; subst; split; reflexivity.
     + apply rbind_ok in H; destruct H as [[l' iv1] [H1 H]]; inversion H; subst. cbn [fst fview dpview].
-      split; [apply (enc_list_names _ _ _ _ _ _ _ H1) | reflexivity].
+      split; [apply (enc_list_names _ _ _ _ _ _ _ H1) | f_equal; apply (enc_list_dp1 _ _ _ _ _ _ _ H1)].
     + apply rbind_ok in H; destruct H as [[d' iv1] [H1 H]]; inversion H; subst. cbn [fst fview dpview].
-      split; [reflexivity|]. f_equal.
-      pose proof (enc_dict_get _ _ _ _ _ _ _ H1 K_Name) as G.
-      destruct (dict_get d K_Name) as [y|], (dict_get d' K_Name) as [y'|]; try contradiction; [|reflexivity].
-      destruct G as [iv [iv' G]]. apply enc_name_eq in G. unfold name_eq in G.
-      destruct y, y'; cbn [namef] in G; try discriminate; try reflexivity. inversion G; reflexivity.
+      split; [reflexivity|]. f_equal. exact D1.
     + apply rbind_ok in H; destruct H as [a [_ H]].
       apply rbind_ok in H; destruct H as [b [_ H]]. inversion H; subst; split; reflexivity.
 Qed.
@@ -300,26 +332,41 @@ Proof.
   rewrite !(has_type_view d d' _ H). reflexivity.
 Qed.
 
+(* the override in terms of the two views *)
+Lemma override_filter_view st d c :
+  override_filter st (OStream d c) =
+  match fview (dict_get d K_Filter) with
+  | Some fs =>
+    match position N_Crypt fs with
+    | Some k => Some (match dp_at (dpview (dict_get d K_DecodeParms)) k with
+                      | Some (Some n) => match bt_get (es_crypt_filters st) n with Some f => f | None => CF_Identity end
+                      | _ => CF_Identity
+                      end)
+    | None => None
+    end
+  | None => None
+  end.
+Proof.
+  unfold override_filter. change (stream_filters d) with (fview (dict_get d K_Filter)).
+  destruct (fview (dict_get d K_Filter)) as [fs|]; [|reflexivity].
+  destruct (position N_Crypt fs) as [k|]; [|reflexivity]. f_equal.
+  assert (E : dp1 (match dict_get d K_DecodeParms with Some (OArr ps) => nth_error ps k | other => other end)
+              = dp_at (dpview (dict_get d K_DecodeParms)) k).
+  { destruct (dict_get d K_DecodeParms) as [y|]; [|reflexivity].
+    destruct y; try reflexivity. cbn [dpview dp_at]. rewrite nth_error_map.
+    destruct (nth_error l k); reflexivity. }
+  rewrite <- E.
+  destruct (match dict_get d K_DecodeParms with Some (OArr ps) => nth_error ps k | other => other end) as [y|]; [|reflexivity].
+  destruct y; try reflexivity. cbn [dp1]. destruct (dict_get d0 K_Name) as [z|]; [|reflexivity]. destruct z; reflexivity.
+Qed.
+
 Lemma stream_cf_view st d c d' c' :
+  option_map namef (dict_get d' K_Type) = option_map namef (dict_get d K_Type) ->
   fview (dict_get d' K_Filter) = fview (dict_get d K_Filter) ->
   dpview (dict_get d' K_DecodeParms) = dpview (dict_get d K_DecodeParms) ->
   stream_cf st (OStream d' c') = stream_cf st (OStream d c).
 Proof.
-  intros HF HD. unfold stream_cf, override_filter.
-  change (stream_filters d') with (fview (dict_get d' K_Filter)).
-  change (stream_filters d) with (fview (dict_get d K_Filter)). rewrite HF.
-  destruct (fview (dict_get d K_Filter)) as [fs|]; [|reflexivity].
-  destruct (existsb (bytes_eqb N_Crypt) fs); [|reflexivity].
-  unfold dpview in HD.
-  destruct (dict_get d K_DecodeParms) as [y|], (dict_get d' K_DecodeParms) as [y'|].
-  - destruct y, y'; try discriminate; try reflexivity. inversion HD as [H1].
-    destruct (dict_get d0 K_Name) as [z|], (dict_get d1 K_Name) as [z'|]; try reflexivity.
-    + destruct z, z'; try discriminate; try reflexivity. inversion H1; reflexivity.
-    + destruct z; try discriminate; reflexivity.
-    + destruct z'; try discriminate; reflexivity.
-  - destruct y; try discriminate; reflexivity.
-  - destruct y'; try discriminate; reflexivity.
-  - reflexivity.
+  intros HT HF HD. unfold stream_cf. rewrite !override_filter_view, HF, HD, (has_type_view d d' _ HT). reflexivity.
 Qed.
 
 Lemma dec_dict_set_int P st id d k z r :
@@ -393,7 +440,7 @@ Proof.
     assert (Vd : dpview (dict_get d2 K_DecodeParms) = dpview (dict_get d K_DecodeParms)).
     { subst d2. rewrite dget_set_other by (cbv; discriminate). apply V. }
     rewrite (skip_stream_view st d c d2 ct Vt), Es. cbn [dec_body].
-    rewrite (stream_cf_view st d c d2 ct Vf Vd).
+    rewrite (stream_cf_view st d c d2 ct Vt Vf Vd).
     subst d2. rewrite (dec_dict_set_int _ _ _ _ _ _ _ G). cbn [rbind].
     rewrite (filter_rt _ _ _ _ _ _ _ HP H1). cbn [rbind].
     unfold set_content. rewrite dset_set. reflexivity.
@@ -407,18 +454,18 @@ Proof.
   intros HP HL H. rewrite (object_rt P st id HP _ _ _ _ H). rewrite norm_len_id by exact HL. reflexivity.
 Qed.
 
-(* decrypt_object reads only these five components of the state *)
+(* decrypt_object reads only these six components of the state *)
 Definition st_equiv (a b : estate) : Prop :=
   es_key a = es_key b /\ es_crypt_filters a = es_crypt_filters b /\ es_stmf a = es_stmf b /\
-  es_strf a = es_strf b /\ es_encrypt_metadata a = es_encrypt_metadata b.
+  es_strf a = es_strf b /\ es_encrypt_metadata a = es_encrypt_metadata b /\ es_eff a = es_eff b.
 
 Lemma skip_object_equiv a b o : st_equiv a b -> skip_object a o = skip_object b o.
-Proof. intros [_ [_ [_ [_ E]]]]. unfold skip_object. rewrite E. reflexivity. Qed.
+Proof. intros [_ [_ [_ [_ [E _]]]]]. unfold skip_object. rewrite E. reflexivity. Qed.
 
 Lemma decrypt_object_equiv P a b id : st_equiv a b -> forall o, decrypt_object P a id o = decrypt_object P b id o.
 Proof.
   intros HE.
-  pose proof HE as [Ek [Ec [Em [Er Ed]]]].
+  pose proof HE as [Ek [Ec [Em [Er [Ed Ef]]]]].
   induction o as [|bb|z|r|n|s h|l Hl|d Hd|d c Hd|i g] using obj_ind5;
     rewrite !decrypt_object_eq, (skip_object_equiv a b _ HE); destruct (skip_object b _); try reflexivity; cbn [dec_body].
   - unfold string_filter, get_crypt_filter. rewrite Ek, Ec, Er. reflexivity.
@@ -430,5 +477,6 @@ Proof.
     rewrite G. reflexivity.
   - assert (G : dec_dict P a id d = dec_dict P b id d).
     { induction Hd as [|[k x] d Hx _ IH]; [reflexivity|]. cbn [dec_dict]. cbn [snd] in Hx. rewrite Hx, IH. reflexivity. }
-    rewrite G. unfold stream_cf, override_filter, stream_filter, get_crypt_filter. rewrite Ek, Ec, Em. reflexivity.
+    rewrite G. unfold stream_cf, override_filter, embedded_file_filter, stream_filter, get_crypt_filter.
+    rewrite Ek, Ec, Em, Ef. reflexivity.
 Qed.
